@@ -387,7 +387,16 @@ func (*c01Engine) Generate(seed uint64, tier string) *Case {
 		src, _ := genKnobProgram(r)
 		p.Family, p.Src = "knobs", src
 	}
-	p.InitStack = Pick(r, []int{64, 80, 128, 300, defInitStack})
+	// Small initial stacks are hostile on purpose, but a frame that needs more than the 30%
+	// head room of the growth check overruns the stack silently (the C10 finding below 64
+	// slots; possible with large frames up to a few hundred) and corrupts the heap of the
+	// worker: later cases of the same process then fail in unrelated places (seen as harness
+	// errors and as one non-replayable violation). Stacks below 200 slots are therefore rare
+	// and the worker process is recycled after each such case.
+	p.InitStack = Pick(r, []int{200, 300, 300, 600, defInitStack, defInitStack})
+	if r.Chance(0.05) {
+		p.InitStack = Pick(r, []int{64, 80, 128})
+	}
 	p.CallStack = Pick(r, []int{64, 200, defCallStack})
 	p.Pool = r.Range(1, 3)
 	p.Queue = Pick(r, []int{1, 2, 8, 64, 256})
@@ -467,6 +476,10 @@ func (*c01Engine) Execute(t *testing.T, c *Case) *Verdict {
 		fam = strings.ReplaceAll(fam, "/", "_")
 	}
 	v.Extra = map[string]int64{"family_" + fam: 1, "outcome_" + res.Outcome: 1, "with_cancel": b2i(p.Cancel > 0), "main_ended_with_elk_error": b2i(mainErr != "")}
+	if p.InitStack < 200 {
+		v.Extra["recycle_worker"] = 1
+		v.Extra["small_initial_stack"] = 1
+	}
 	cfgText := fmt.Sprintf("family %s, init_stack=%d slots, call_stack=%d frames, pool=%d, queue=%d, cancel tick=%d, faults=%v", p.Family, p.InitStack, p.CallStack, p.Pool, p.Queue, p.Cancel, c.Sched.Faults)
 	v.Sample = map[string]any{"config": cfgText, "outcome": res.Outcome, "main_error": mainErr, "output": out}
 	switch res.Outcome {
